@@ -220,6 +220,20 @@ impl<'a> Exec<'a> {
                     _ => res(e.add_assertion_envelope_salted(x, false)),
                 }
             }
+            "add_nothing" => {
+                let e = reg(regs, a(0))?;
+                match a(1).as_str().unwrap_or("") {
+                    "optional_none" => Outcome::Env(e.add_optional_assertion("p", None::<String>)),
+                    "if_false" => Outcome::Env(e.add_assertion_if(false, "p", "o")),
+                    "empty_string" => Outcome::Env(e.add_nonempty_string_assertion("p", "")),
+                    "optional_envelope_none" => res(e.add_optional_assertion_envelope(None)),
+                    "envelope_if_false" => res(e.add_assertion_envelope_if(false, Envelope::new("not an assertion"))),
+                    "salted_none" => res(e.add_optional_assertion_envelope_salted(None, true)),
+                    "assertions_empty" => Outcome::Env(e.add_assertions(&[])),
+                    "add_assertion_envelopes_empty" => res(e.add_assertion_envelopes(&[])),
+                    k => return Err(format!("noop kind {}", k)),
+                }
+            }
             "add_assertions" => {
                 let e = reg(regs, a(0))?;
                 let mut xs: Vec<Envelope> = vec![];
